@@ -1,5 +1,5 @@
 PROPS["C03"] = dict(
-    pkg="p_kv", hooks=[], level="exploration", design="DESIGN.md §4 C03",
+    pkg="p_kv", hooks=["inmem"], level="exploration", design="DESIGN.md §4 C03",
     technique="model-based differential PBT: every op list runs on a reference model, the in-memory and the Redis (miniredis) backend; bounded-exhaustive op lists + rapid",
     rule="case = op list over Create/Get/GetMany/Put/PutMany/CasByVersion/Delete/ListKeys with keys {a,b,ab,a/b,k1}, values {nil,'',x,yy}, "
          "expiry none/+1h/+100h (the clock does not move here), CAS version current/previous/empty/garbage, GetMany/PutMany lists of 0..4 "
